@@ -214,6 +214,19 @@ def r_branch(ctx: Ctx, model, tr):
         ctx.analysed[f"branch points {name}"] = npts
 
 
+def r_state(ctx: Ctx, model):
+    """the Dubinin models' temperature-dependent constant: the adsorption potential is A = -RT ln(p/p0), so the constant that
+    __init_parameters__ derives from the isotherm's temperature must be exactly -R*T (gas constant x kelvin temperature)"""
+    ctx.rule("M-state: DR / DA __init_parameters__({'temperature': T}) sets minus_rt = -R*T (interpreted)")
+    R_, T_ = sp.Symbol("R", positive=True), sp.Symbol("T", positive=True)
+    for name in ("DR", "DA"):
+        ci = model.cls(f"{MOD}.{name.lower()}.{name}")
+        val = derived_constant(model, ci, "minus_rt")
+        ctx.ob(sp.simplify(val + R_ * T_) == 0, Finding("C10.M-state", ci.find_method("__init_parameters__").where, f"{name}|minus_rt",
+                                                         f"{name}.__init_parameters__ sets minus_rt = {val}; the Dubinin potential requires -R*T"),
+               nontrivial_key=("state", name))
+
+
 def r_array(ctx: Ctx, model):
     """scalars and arrays alike, including the zero point: pressure([0, n1, n2]) of the closed-form inverses is, element by element,
     what the scalar calls give (the 0/0 of the quadratic formula at zero loading is repaired wherever it occurs in the array) -
@@ -503,6 +516,7 @@ def run(ctx: Ctx):
     r_inverse(ctx, model, tr)
     r_numinv(ctx, model, tr)
     r_array(ctx, model)
+    r_state(ctx, model)
     r_zero_henry_mono(ctx, model, tr, lists)
     r_mono_refute(ctx, model, tr, lists)
     ctx.analysed["models"] = lists["_MODELS"]
